@@ -447,6 +447,69 @@ def fits_bounded_instance():
     return Instance('C06', DN + '*Trainer.fit', 'bounded-stacked-fits', make, call, ensures, mode='bounded', bounded_n=100, frame=False)
 
 
+def wide_range_models_bounded_instance():
+    """Hand-built (or loaded) stacked models whose parameters differ by orders of magnitude between the slices -- a Watson / vMF
+    concentration near 0 next to one in the hundreds (up to the documented limits and the largest values the normaliser can hold),
+    cACG spectra at the floor next to flat ones: log_pdf / predict of the stack indexed at a slice equals the slice alone."""
+    from pb_bss.distribution import ComplexWatson, VonMisesFisher, ComplexAngularCentralGaussian, CWMM
+
+    def make(B):
+        return {'family': B.choose('family', ['watson', 'watson', 'vmf', 'cacg', 'cwmm']), 'nlead': B.choose('nlead', [1, 2]),
+                'D': B.choose('D', [2, 3, 5]), 'seed': B.choose('seed', list(range(3000))), 'd': B.given('d', np.zeros(1))}
+
+    def call(inp):
+        rng = np.random.RandomState(inp['seed'])
+        fam, D = inp['family'], inp['D']
+        lead = tuple(int(v) for v in rng.randint(2, 4, size=inp['nlead']))
+        N = 6
+
+        def cn(*s_):
+            return rng.normal(size=s_) + 1j * rng.normal(size=s_)
+        # concentrations: every slice draws its own decade
+        bands = [(0.01, 1.0), (1.0, 30.0), (100.0, 500.0), (700.5, 708.0)]      # (exp overflows at 709.78)
+        if fam == 'vmf':
+            bands = [(0.01, 1.0), (1.0, 30.0), (100.0, 500.0), (500.0, 690.0)]
+        pick = rng.randint(0, len(bands), size=lead + ((2,) if fam == 'cwmm' else ()))
+        pick.reshape(-1)[0] = len(bands) - 1
+        pick.reshape(-1)[-1] = 0
+        lo = np.array([b[0] for b in bands])[pick]
+        hi = np.array([b[1] for b in bands])[pick]
+        kappa = rng.uniform(lo, hi)
+        if fam == 'watson':
+            m = cn(*lead, D)
+            obj = lambda ix: ComplexWatson(mode=(m / np.linalg.norm(m, axis=-1, keepdims=True))[ix], concentration=kappa[ix])      # noqa
+            y = cn(*lead, N, D)
+        elif fam == 'vmf':
+            m = rng.normal(size=lead + (D,))
+            obj = lambda ix: VonMisesFisher(mean=(m / np.linalg.norm(m, axis=-1, keepdims=True))[ix], concentration=kappa[ix])      # noqa
+            y = rng.normal(size=lead + (N, D))
+        elif fam == 'cacg':
+            q, _ = np.linalg.qr(cn(*lead, D, D))
+            ev = rng.uniform(0.0, 1.0, size=lead + (D,)) ** rng.choice([1, 8, 30], size=lead + (1,))
+            ev = np.maximum(ev / ev.max(-1, keepdims=True), 1e-10)
+            obj = lambda ix: ComplexAngularCentralGaussian(covariance_eigenvectors=q[ix], covariance_eigenvalues=ev[ix])      # noqa
+            y = cn(*lead, N, D)
+        else:
+            m = cn(*lead, 2, D)
+            w = rng.dirichlet(np.ones(2), size=lead)[..., None]
+            obj = lambda ix: CWMM(weight=w[ix], complex_watson=ComplexWatson(mode=(m / np.linalg.norm(m, axis=-1, keepdims=True))[ix], concentration=kappa[ix]))      # noqa
+            y = cn(*lead, N, D)
+        y = y / np.linalg.norm(y, axis=-1, keepdims=True)
+        ev_ = (lambda o, yy: o.predict(yy)) if fam == 'cwmm' else (lambda o, yy: o.log_pdf(yy))
+        with np.errstate(all='ignore'):
+            full = np.asarray(ev_(obj(Ellipsis), y))
+            idx = tuple(int(rng.randint(0, n)) for n in lead)
+            part = np.asarray(ev_(obj(idx), y[idx]))
+        return {'full': full[idx], 'part': part}
+
+    def ensures(sp, inp, out):
+        yield 'slice-alone-finite', bool(np.all(np.isfinite(out['part'])))
+        yield 'stacked-model-indexed-equals-slice-alone[%s]' % inp['family'], bool(out['full'].shape == out['part'].shape
+                                                                                    and np.allclose(out['full'], out['part'], rtol=1e-9, atol=1e-9))
+
+    return Instance('C06', DN + '*.log_pdf', 'bounded-stacked-models-wide-parameter-range', make, call, ensures, mode='bounded', bounded_n=120, frame=False)
+
+
 def instances(tier):
     out = []
     for ct in ('full', 'diagonal', 'spherical'):
@@ -481,3 +544,10 @@ def instances(tier):
     out.append(singleton_init_instance((2, 2, 2), (2, 1, 2)))
     out.append(fits_bounded_instance())
     return out
+
+
+_instances_before_wide = instances
+
+
+def instances(tier):       # noqa: F811
+    return _instances_before_wide(tier) + [wide_range_models_bounded_instance()]
